@@ -236,8 +236,9 @@ func run(s *kernel.Sim, _, batch string) {
 		dynamic = c.allow[1:]
 	}
 
+	allowlist := ratelimit.NewDynamicAllowlist(persistent, dynamic)
 	bo := ratelimit.NewBackoff(&ratelimit.BackoffConfig{
-		Allowlist:            ratelimit.NewDynamicAllowlist(persistent, dynamic),
+		Allowlist:            allowlist,
 		Period:               c.period,
 		Duration:             c.duration,
 		Count:                uint(c.backoffCount),
@@ -305,6 +306,20 @@ func run(s *kernel.Sim, _, batch string) {
 		gap := kernel.Pick(t, gaps(ivl), "gap")
 		if gap > 0 {
 			time.Sleep(gap)
+		}
+
+		if t.Chance(1, 10, "allowlist-update") {
+			// The dynamic part of the allowlist is refreshed from the backend.
+			dyn := kernel.Pick(t, [][]netip.Prefix{
+				nil,
+				{netip.MustParsePrefix("2001:db8:1::/48")},
+				{netip.MustParsePrefix("203.0.113.0/24")},
+				{netip.MustParsePrefix("192.0.2.0/28"), netip.MustParsePrefix("2001:db8::/64")},
+			}, "dynamic-allowlist")
+			allowlist.Update(dyn)
+			m.c.allow = append(append([]netip.Prefix(nil), persistent...), dyn...)
+			s.Logf("allowlist updated: dynamic part now %v", dyn)
+			s.Probe("allowlist-updated")
 		}
 
 		qt := kernel.Pick(t, []uint16{dns.TypeA, dns.TypeA, dns.TypeAAAA, dns.TypeANY, dns.TypeTXT}, "qtype")
